@@ -8,6 +8,7 @@ use std::panic::{catch_unwind, AssertUnwindSafe};
 mod util;
 mod c07;
 mod c08;
+mod c10;
 
 pub type Gen = fn(&mut util::Rng, &str) -> String;
 pub type Exec = fn(&[&str]) -> String;
@@ -16,6 +17,7 @@ fn table(prop: &str) -> Option<(Gen, Exec)> {
     match prop {
         "C07" => Some((c07::gen, c07::exec)),
         "C08" => Some((c08::gen, c08::exec)),
+        "C10" => Some((c10::gen, c10::exec)),
         _ => None,
     }
 }
